@@ -130,19 +130,21 @@ ImplCoords(L) ==
   IF L.hdrcnt > Len(L.boxlines) THEN "exception"
   ELSE IF \E b \in 1..L.hdrcnt : ~L.bounds_ok[b] THEN "error" ELSE "ok"
 
-SortedBoxes(L, f) ==
-  IF SortOffsets
+SortedBoxesP(L, f, sortOffsets) ==
+  IF sortOffsets
   THEN CHOOSE s \in PermsOf(BoxesIn(L, f)) :
          \A i, j \in DOMAIN s : i < j =>
             \/ L.fodlines[s[i]].off < L.fodlines[s[j]].off
             \/ (L.fodlines[s[i]].off = L.fodlines[s[j]].off /\ s[i] < s[j])
   ELSE CHOOSE s \in PermsOf(BoxesIn(L, f)) : \A i, j \in DOMAIN s : i < j => s[i] < s[j]
 
+SortedBoxes(L, f) == SortedBoxesP(L, f, SortOffsets)
+
 \* mp_fun_headers for one file
-ImplHeadersFile(L, f) ==
+ImplHeadersFileP(L, f, sortOffsets) ==
   IF f \notin DOMAIN L.files \/ f \in L.gone THEN "exception"
   ELSE LET u == L.files[f]
-           bs == SortedBoxes(L, f)
+           bs == SortedBoxesP(L, f, sortOffsets)
            r(b) == LET h == UnitAt(u, L.fodlines[b].off)
                    IN IF h.k # "H" THEN "exception"
                       ELSE IF h.idx # L.boxlines[b].idx \/ h.nc # NF THEN "error" ELSE "ok"
@@ -151,30 +153,43 @@ ImplHeadersFile(L, f) ==
        IN IF bad = {} THEN "ok" ELSE r(bs[Min(bad)])
 
 \* mp_fun_shape for one file: sequential walk from byte 0
-RECURSIVE Walk(_, _, _, _, _)
-Walk(L, u, bs, i, pos) ==
+ImplHeadersFile(L, f) == ImplHeadersFileP(L, f, SortOffsets)
+
+RECURSIVE Walk(_, _, _, _, _, _)
+Walk(L, u, bs, i, pos, eofRule) ==
   \* positioned on the header of the i-th box of the walk, at unit `pos`
   LET h == UnitAt(u, pos) IN
   IF h.k # "H" THEN "exception"                      \* shape_from_header fails
   ELSE LET nxt == pos + 1 + CellsOfIdx(h.idx) * h.nc IN
        IF i = Len(bs)
-       THEN IF EOFRule /\ nxt # Len(u) THEN "error" ELSE "ok"
+       THEN IF eofRule /\ nxt # Len(u) THEN "error" ELSE "ok"
        ELSE LET hn == UnitAt(u, nxt)
                 ok == hn.k = "H" /\ hn.canon /\ hn.idx = L.boxlines[bs[i + 1]].idx /\ hn.nc = NF
-            IN IF ~ok THEN "error" ELSE Walk(L, u, bs, i + 1, nxt)
+            IN IF ~ok THEN "error" ELSE Walk(L, u, bs, i + 1, nxt, eofRule)
 
-ImplShapeFile(L, f) ==
+ImplShapeFileP(L, f, checkFirst, sortOffsets, eofRule) ==
   IF f \notin DOMAIN L.files \/ f \in L.gone THEN "exception"
   ELSE LET u == L.files[f]
-           bs == SortedBoxes(L, f)
+           bs == SortedBoxesP(L, f, sortOffsets)
            h0 == UnitAt(u, 0)
-       IN IF CheckFirstHeader /\ h0.k = "H"
+       IN IF checkFirst /\ h0.k = "H"
              /\ ~(h0.canon /\ h0.idx = L.boxlines[bs[1]].idx /\ h0.nc = NF)
           THEN "error"
-          ELSE Walk(L, u, bs, 1, 0)
+          ELSE Walk(L, u, bs, 1, 0, eofRule)
+ImplShapeFile(L, f) == ImplShapeFileP(L, f, CheckFirstHeader, SortOffsets, EOFRule)
 
 Worst(S) == IF "exception" \in S THEN "exception" ELSE IF "error" \in S THEN "error" ELSE "ok"
 ImplHeaders(L) == Worst({ImplHeadersFile(L, f) : f \in RefFiles(L)})
 ImplShape(L) == Worst({ImplShapeFile(L, f) : f \in RefFiles(L)})
+
+\* Would a validator built with other design choices accept this level?  Used to single out the
+\* FRAGILE damaged states: those that only one of the validator's rules stands against.
+LevelGoodWith(L, checkFirst, sortOffsets, eofRule) ==
+  /\ ImplParseCellH(L) = "ok" /\ ImplStructure(L) = "ok"
+  /\ \A f \in RefFiles(L) : ImplHeadersFileP(L, f, sortOffsets) = "ok"
+  /\ \A f \in RefFiles(L) : ImplShapeFileP(L, f, checkFirst, sortOffsets, eofRule) = "ok"
+Fragile(P, lim) == \E cf, so, eo \in BOOLEAN :
+   /\ ~(cf /\ so /\ eo)
+   /\ \A l \in 1..(lim + 1) : LevelGoodWith(P[l], cf, so, eo)
 
 =============================================================================
